@@ -5,6 +5,7 @@
 package main
 
 import (
+	"os"
 	"time"
 
 	"verif/lib/concfs"
@@ -26,6 +27,21 @@ func main() {
 			{{Op: "Mkdir", A: "/d/y", Perm: 0o755}}, {{Op: "Stat", A: "/d/x"}},
 		}
 		pl.Programs = append(pl.Programs, concfs.Pairs("MemFS", true, setters)...)
+
+		// owner changes by the owner and by somebody else (refused), against what reads the owner:
+		// a refusal decided before the node is locked reads what the owner's own call writes under the lock
+		owners := []concfs.Tmpl{
+			{{Op: "ChownSelf", A: "/d/x"}}, {{Op: "LchownSelf", A: "/d/x"}}, {{Op: "LchownSelf", A: "/d/s"}},
+			{{Op: "Chmod", A: "/d/x", Perm: 0o600}}, {{Op: "Stat", A: "/d/x"}}, {{Op: "Remove", A: "/d/x"}},
+		}
+		pl.Programs = append(pl.Programs, concfs.OrderedPairs("MemFS", true, owners)...)
+
+		// one OrefaFS shared by the threads: its setters against what reads the settings
+		shared := []concfs.Tmpl{
+			{{Op: "SetUMask", Perm: 0o027}}, {{Op: "Mkdir", A: "/d/y", Perm: 0o755}},
+			{{Op: "OpenFile", A: "/d/y", Flag: os.O_RDWR | os.O_CREATE | os.O_EXCL, Perm: 0o644}}, {{Op: "MkdirAll", A: "/d/y/y", Perm: 0o755}},
+		}
+		pl.Programs = append(pl.Programs, concfs.Pairs("OrefaFS", false, shared)...)
 
 		if tier == "thorough" {
 			pl.Bound = 2
